@@ -54,6 +54,8 @@ ODS_FEATURES = {
     "covered-cell": "merged cell followed by table:covered-table-cell (twin: plain empty cell)",
     "repeated-cell": "table:number-columns-repeated=3 on a string cell (twin: three literal cells)",
     "repeated-row": "table:number-rows-repeated=2 on a data row (twin: two literal rows)",
+    "nan-cell": "a float cell with office:value=\"NaN\" (legal xsd:double) (twin: 0.5)",
+    "inf-cell": "a float cell with office:value=\"INF\" or \"-INF\" (legal xsd:double) (twin: 0.5)",
 }
 ODG_FEATURES = {}   # the same picture placed twice is returned once (deduplicated by href): multiplicity of shared media is unclaimed
 
@@ -237,6 +239,7 @@ def build_odt(seed: int, feature: str | None = None, twin: bool = False):
                     body.append(o + mid + i_)
                 else:
                     o, og = table(2, 2, nested=lambda: table(2, 2)[0])
+                    exp.nested_tables = 2
                     exp.tables_claimed = False
                     body.append(o)
             elif feature == "textbox-two-paras":
@@ -425,6 +428,14 @@ def build_ods(seed: int, feature: str | None = None, twin: bool = False):
                         cells.append(f'<table:table-cell table:number-columns-spanned="2" office:value-type="string"><text:p>{t}</text:p></table:table-cell><table:covered-table-cell/>')
                     grow += [{"toks": [t]}, {"empty": True}]
                     j += 2
+                    continue
+                if is_f and feature in ("nan-cell", "inf-cell") and i == 1 and j == 0:
+                    # xsd:double admits the special values NaN, INF and -INF; what the cell value becomes is unclaimed,
+                    # the rest of the sheet must come through (twin: an ordinary number)
+                    lit = "0.5" if twin else ("NaN" if feature == "nan-cell" else rng.choice(["INF", "-INF"]))
+                    cells.append(f'<table:table-cell office:value-type="float" office:value="{lit}"><text:p>{lit}</text:p></table:table-cell>')
+                    grow.append({"v": 0.5} if twin else {"any": True})
+                    j += 1
                     continue
                 if is_f and feature == "cell-annotation" and i == 1 and j == 0:
                     t = exp.text(tk.new("c"), s)
